@@ -125,7 +125,7 @@ func ruleStoreFirst(c *Ctx, rule string) {
 		if len(stores) == 0 {
 			continue
 		}
-		if fn.Name() == "ConfigurePool" {
+		if bareName(fn) == "ConfigurePool" {
 			c.exempt(rule, fn, "rebuild from the store", nil, "ConfigurePool rebuilds both tables from a List of the store; it is not an incremental mutator (ordering of its snapshot is C05.R3)")
 			continue
 		}
@@ -211,7 +211,17 @@ func ruleCreateBeforeCache(c *Ctx, rule string) {
 		}
 		creates := calls(fn, "(*crdIpam).createFloatingIP")
 		if len(creates) == 0 {
-			if fn.Name() == "handleFIPAssign" {
+			onlyFromAssign := len(staticSites[fn]) > 0
+			for _, cs := range staticSites[fn] {
+				top := cs.Parent()
+				for top.Parent() != nil {
+					top = top.Parent()
+				}
+				if bareName(top) != "handleFIPAssign" {
+					onlyFromAssign = false
+				}
+			}
+			if bareName(fn) == "handleFIPAssign" || onlyFromAssign {
 				c.exempt(rule, fn, "watch-driven reservation", nil, "handleFIPAssign mirrors an object that already exists in the store (add event); guarded by C09.R3")
 			} else {
 				c.ob(rule, fn, "syncCacheAfterCreate without createFloatingIP", ms[0], false, "memory is marked allocated in a function that never creates the store object")
@@ -663,8 +673,14 @@ func ruleReloadAllOrNothing(c *Ctx, rule string) {
 	var stores []ssa.Instruction
 	allInstrs(fn, func(in ssa.Instruction) {
 		if st, ok := in.(*ssa.Store); ok {
-			if p, ok := st.Addr.(*ssa.Parameter); ok && p.Name() == pAt(fn, 1).Name() {
+			if p, ok := st.Addr.(*ssa.Parameter); ok && pAt(fn, 1) != nil && p.Name() == pAt(fn, 1).Name() {
 				stores = append(stores, st)
+			}
+			// the remembered configuration kept in a field of the plugin instead of behind a pointer parameter
+			if fa, ok := st.Addr.(*ssa.FieldAddr); ok {
+				if n := fieldName(fa.X.Type(), fa.Field); strings.HasPrefix(strings.ToLower(n), "last") && strings.HasSuffix(strings.ToLower(n), "conf") {
+					stores = append(stores, st)
+				}
 			}
 		}
 	})
@@ -728,8 +744,9 @@ func ruleReservationHandlers(c *Ctx, rule string) {
 			c.undecided(rule, as, "move to allocated", nil, "syncCacheAfterCreate call not found")
 		}
 		for _, m := range ms {
-			c.ob(rule, as, "reserve only an ip that is not allocated", m, guardedBy(as, m, guardEdges(as, negate(lookupOK("allocatedFIPs")))), "move reachable only through the not-found edge of the allocatedFIPs lookup")
-			c.ob(rule, as, "reserve only an ip found in the unallocated table", m, guardedBy(as, m, guardEdges(as, lookupOK("unallocatedFIPs"))), "move reachable only through the found edge of the unallocatedFIPs lookup")
+			host := m.Parent() // the handler itself, or the helper that holds its locked part
+			c.ob(rule, as, "reserve only an ip that is not allocated", m, guardedBy(host, m, guardEdges(host, negate(lookupOK("allocatedFIPs")))), "move reachable only through the not-found edge of the allocatedFIPs lookup")
+			c.ob(rule, as, "reserve only an ip found in the unallocated table", m, guardedBy(host, m, guardEdges(host, lookupOK("unallocatedFIPs"))), "move reachable only through the found edge of the unallocatedFIPs lookup")
 			c.ob(rule, as, "moved object is the looked-up entry", m, mapFieldOf(callArgs(m)[0]) == "unallocatedFIPs", "argument of syncCacheAfterCreate is the value read from unallocatedFIPs")
 		}
 	}
@@ -739,7 +756,8 @@ func ruleReservationHandlers(c *Ctx, rule string) {
 			c.undecided(rule, un, "move to unallocated", nil, "syncCacheAfterDel call not found")
 		}
 		for _, m := range ms {
-			c.ob(rule, un, "unreserve only an ip found in the allocated table", m, guardedBy(un, m, guardEdges(un, lookupOK("allocatedFIPs"))), "move reachable only through the found edge of the allocatedFIPs lookup")
+			host := m.Parent()
+			c.ob(rule, un, "unreserve only an ip found in the allocated table", m, guardedBy(host, m, guardEdges(host, lookupOK("allocatedFIPs"))), "move reachable only through the found edge of the allocatedFIPs lookup")
 			c.ob(rule, un, "moved object is the looked-up entry", m, mapFieldOf(callArgs(m)[0]) == "allocatedFIPs", "argument of syncCacheAfterDel is the value read from allocatedFIPs")
 		}
 	}
@@ -1169,10 +1187,10 @@ func ruleOneCriticalSection(c *Ctx, rule string) {
 	la := c.locks()
 	for _, fn := range ipamMethods(c) {
 		stores := calls(fn, storeWriters...)
-		if len(stores) == 0 || fn.Name() == "ConfigurePool" {
+		if len(stores) == 0 || bareName(fn) == "ConfigurePool" {
 			continue
 		}
-		if fn.Name() == "AllocateSpecificIP" {
+		if bareName(fn) == "AllocateSpecificIP" {
 			c.exempt(rule, fn, "lookup and create in separate critical sections", nil, "AllocateSpecificIP (adoption of an ip a running pod already carries) looks up under RLock, creates without the lock and inserts under Lock; the store Create conflict arbitrates (C01.R3). Listed exception, single instance.")
 			continue
 		}
@@ -1354,7 +1372,28 @@ func ruleExactKeyQueries(c *Ctx, rule string) {
 			if !ok {
 				if p, isP := unspill(a).(*ssa.Parameter); isP {
 					// a parameter: accepted for the list API's keyword / prefix query only
-					ok = fn.Pkg.Pkg.Path() == modPath+apiPkg && p.Name() == "keyword"
+					var fromKeyword func(q *ssa.Parameter, d int) bool
+					fromKeyword = func(q *ssa.Parameter, d int) bool {
+						if q.Parent() == nil || q.Parent().Pkg == nil || q.Parent().Pkg.Pkg.Path() != modPath+apiPkg {
+							return false
+						}
+						if q.Name() == "keyword" {
+							return true
+						}
+						// an unexported helper of the list API: every call site hands it the keyword
+						acts := actualsOf(q)
+						if len(acts) == 0 || d > 2 {
+							return false
+						}
+						for _, a := range acts {
+							q2, isP := unspill(a).(*ssa.Parameter)
+							if !isP || !fromKeyword(q2, d+1) {
+								return false
+							}
+						}
+						return true
+					}
+					ok = fromKeyword(p, 0)
 				}
 				if ld, isLd := a.(*ssa.UnOp); isLd {
 					if _, isFV := ld.X.(*ssa.FreeVar); isFV {
